@@ -201,6 +201,19 @@ CLAIMED["C13"] = dict(
     design_ref="DESIGN.md §4 C13", note=NUM_NOTE,
     technique="TLA+ case analysis over a landmark table; trace validation of recorded conversions; run-length sweeps")
 
+CLAIMED["C20"] = dict(
+    category="model_checking",
+    text="Threads.tla abstracts operations to read/write footprints over documents, the shared default allocator and "
+         "constant tables; TLC checks RaceFree for all interleavings of in-progress operations under const-only sharing "
+         "and must find the documented race for Filter(JsonDocument&). On the implementation 8 threads replay "
+         "spec-annotated behaviour streams (DocumentFeed.tla) on their own documents on the shared allocator while "
+         "reading a shared document through JsonVariantConst (copy source, filter, serialization); each per-thread "
+         "execution must equal the sequential expectation; built with ThreadSanitizer (a data race aborts) and with ASan.",
+    design_ref="DESIGN.md §4 C20",
+    note="Schedules are sampled, not enumerated; TSan observes the real footprints on the runs performed. The footprint "
+         "table in Threads.tla is hand-derived from the code (no mutable statics) and is what TSan cross-checks.",
+    technique="TLA+ footprint model checked by TLC; per-thread replay of spec-annotated behaviours under TSan")
+
 NOT_YET = {
 }
 
